@@ -6,5 +6,6 @@ IDS="$@"; [ -z "$IDS" ] && IDS=$(ls seeded)
 for ID in $IDS; do
   P=$(python3 -c "import json;print(json.load(open('seeded/$ID/meta.json'))['breaks_property'])")
   echo "#### $ID ($P)"
+  if python3 -c "import json,sys;sys.exit(0 if json.load(open('seeded/$ID/meta.json')).get('obsolete') else 1)"; then echo "== $P obsolete (the site / mechanism was removed by a later fix: commit; see meta.json)"; continue; fi
   tools/try_mutant.sh "$HERE/seeded/$ID/patch.diff" $P 2>&1 | cut -c1-330
 done
